@@ -167,6 +167,34 @@ func NewChaos(w *World, o ChaosOpts) *Chaos {
 				if cp.Present && ch.Opts.OnlyReAdd {
 					continue
 				}
+				if cp.Present && w.Chance(1, 2, "churn-when-busy") {
+					// a timer wake-up always finds the system quiescent; half of the
+					// deletions therefore wait until the peer is in the middle of
+					// something (a callback executing, a frame just written) and land a
+					// few scheduler steps later
+					busy := func() bool {
+						if st := cp.Cur.Plug.st; st == plInE || st == plInH || st == plInC {
+							return true
+						}
+						for _, c := range cp.Site.ConnList() {
+							c.mu.Lock()
+							recent := len(c.Frames) > 0 && !c.LClosed && w.Seq()-c.Frames[len(c.Frames)-1].Seq < 4
+							c.mu.Unlock()
+							if recent {
+								return true
+							}
+						}
+						return false
+					}
+					if w.WaitUntil("churn.busy", 6*time.Second, busy) {
+						w.Probe("deletepeer-while-busy")
+						target := w.S.Steps + w.Draw(10, "churnoffset")
+						w.WaitUntil("churn.offset", time.Second, func() bool { return w.S.Steps >= target })
+					}
+					if ch.Ending {
+						return
+					}
+				}
 				if cp.Present {
 					old := cp.Cur
 					err := ch.E.Srv.DeletePeer(old.Cfg.RemoteAddress)
